@@ -90,6 +90,8 @@ Lemma q_four_lt_R : 4 * q < WW.
 Proof. reflexivity. Qed.
 Lemma q_pos' : 0 < q.
 Proof. reflexivity. Qed.
+Lemma q_gt_2' : 2 < q.
+Proof. reflexivity. Qed.
 Lemma q_odd' : q mod 2 = 1.
 Proof. vm_compute. reflexivity. Qed.
 Lemma q0_odd : q0 mod 2 = 1.
